@@ -658,7 +658,33 @@ def rule_r9_exception_classes(ctx: Ctx) -> None:
     ctx.analysed["C05.R9.raise_sites"] = n_raise
 
 
+def rule_r10_policy_reaches_dependencies(ctx: Ctx) -> None:
+    """the static rules hold for every definition that is read, also for one read as somebody's dependency: the reference
+    resolver hands the referrer's own port-ID policy (`allow_unregulated_fixed_port_id`) to the read of the dependency -
+    observed on the reader model, for dependencies in the referrer's root namespace and in a foreign one"""
+    from . import reader_common as R
+
+    ctx.rule("C05.R10", "a dependency is read under the same fixed port-ID policy as its referrer (same root namespace or another one, policy on or off): no definition is accepted merely because it was first reached through a reference", min_instances=1)
+    fn = ctx.func("_data_type_builder.DataTypeBuilder.resolve_versioned_data_type")
+    bad = []
+    for allow in (False, True):
+        for dep_name in ("ns.sub.B", "other.B", "Ns2.B"):
+            w = R.World()
+            A = R.ADef(w, "ns.sub.A", 1, 0)
+            B = R.ADef(w, dep_name, 1, 0)
+            o = R.resolve(ctx, A, [A, B], dep_name, 1, 0, allow_unregulated=allow)
+            ctx.count()
+            reads = [e for e in w.log if e[0] == "read"]
+            if o["raised"] or len(reads) != 1:
+                raise AnalysisError("%s: the reference %s.1.0 was not resolved by one read (%s)" % (fn.short, dep_name, o["raised"]))
+            _, _, _lk, _vs, _handler, allow_seen, _kw = reads[0]
+            if allow_seen is not allow:
+                bad.append({"referrer": "ns.sub.A", "dependency": dep_name, "policy of the read": allow, "policy handed to the dependency's read": allow_seen})
+    ctx.check(not bad, fn.short, "the dependency's read gets the referrer's port-ID policy (6 cases)", "a definition with an unregulated fixed port-ID is rejected unless explicitly allowed - however it is reached", fn.where(), bad[:3])
+
+
 def run(ctx: Ctx) -> None:
+    ctx.attempt(rule_r10_policy_reaches_dependencies, ctx)
     rule_r5_names(ctx)
     rule_r6_aggregation(ctx)
     rule_r7_union_extent(ctx)
